@@ -287,6 +287,18 @@ def run(ctx: Ctx) -> Result:
             for kinds in (['IF'], ['TRY'], ['IF', 'ELSE', 'TRY', 'EXCEPT', 'LOOP']):
                 b = nest(depth, kinds)
                 if len(b) < 60000: rt.append((f'{depth} nested blocks ({"/".join(kinds)})', b))
+        # history: the listing is the caller's own list - whatever the caller does with it, decompiling the same bytes again gives
+        # the same listing (in this process, which has decompiled nothing yet)
+        for what, b_ in [x for x in rt if len(x[1]) < 400][:ctx.n(60, 400)]:
+            try:
+                l1 = P.decompile_script(b_); snap_ = list(l1)
+                l1.extend(['OP_TRUE', 'OP_FALSE']); l1[:1] = ['# edited']
+                l2 = P.decompile_script(b_)
+                res.note_case(('decompile-history', b_))
+                if list(l2) != snap_:
+                    viol(what + ' (listing returned by an earlier call was edited by its caller)', b_, str(snap_)[:200], str(list(l2))[:200])
+            except BaseException:
+                pass
         chunks = [rt[i::32] for i in range(32)]
         outs = pool.map_async(_rt, [[b for _, b in ch] for ch in chunks]).get(timeout=3000)
         for ch, oc in zip(chunks, outs):
